@@ -3,5 +3,5 @@
 Require Extraction.
 Require Import ExtrOcamlBasic.
 From Gatery Require Import Bits MemDefs.
-Extraction "c07_model.ml" port_step ps_init mem_commit tspec_step arr_of arr_upd pipe_out pipe_step
+Extraction "c07_model.ml" port_step ps_init mem_commit tspec_step arr_of arr_upd pipe_out pipe_step pipe_step_en
   all_X bv_of_N addr_val all_def cycle run spec_ports.
